@@ -1,0 +1,13 @@
+//go:build verif
+
+package pubsub
+
+// VerifBeforeWaitHook, when set by a verification replay, runs in rpcQueue.Pop between the
+// context check and Cond.Wait, so that a cancellation can be forced to land in that window.
+var VerifBeforeWaitHook func()
+
+func verifBeforeWait() {
+	if h := VerifBeforeWaitHook; h != nil {
+		h()
+	}
+}
